@@ -7,7 +7,9 @@ class C04Queue(CQBase):
     pid = "C04"
     prefixes = ("C04.",)
     mc = [("ConsensusQueue_mc", "ConsensusQueue_ev", ("quick", "thorough")), ("ConsensusQueue_mc", "ConsensusQueue_sig", ("quick", "thorough"))]
-    gens = [Gen("ConsensusQueueGen", "ConsensusQueueGen_prune_cover", "bfs", tiers=("quick",), timeout=900, cap=1000),
+    quick_cap = 9000
+    gens = [Gen("ConsensusQueueGen", "ConsensusQueueGen_reelect_cover", "bfs", tiers=("quick", "thorough"), timeout=600, cap=2000),
+            Gen("ConsensusQueueGen", "ConsensusQueueGen_prune_cover", "bfs", tiers=("quick",), timeout=900, cap=1000),
             Gen("ConsensusQueueGen", "ConsensusQueueGen_prune_cover", "bfs", tiers=("thorough",), timeout=900, cap=20000),
             Gen("ConsensusQueueGen", "ConsensusQueueGen_ev_cover", "bfs", tiers=("quick",), timeout=900, cap=1500),
             Gen("ConsensusQueueGen", "ConsensusQueueGen_order_cover", "bfs", tiers=("quick", "thorough"), timeout=600, cap=1500),
